@@ -302,3 +302,38 @@ register(PropertySpec(
     assumptions=["C08/C09 (mode confinement) for which arm runs", "the flat store de-duplicates by identity (HashedIterable.add)"],
     design_ref="DESIGN.md §2 C14",
 ))
+
+from . import forall
+
+register(PropertySpec(
+    id="C10",
+    title="for_all yields exactly the bindings whose condition holds for every value",
+    rules=[
+        Rule("FORALL-MONOTONE", forall.rule_forall_monotone, 8,
+             "typestate over the loop in ForAll._evaluate__ with a set-provenance lattice for the accumulated bindings "
+             "(EMPTY / SEED / SUBSET-by-membership-in-current / OTHER) and a {first, later} iteration counter: reset at "
+             "entry, first value seeds, later values intersect, nothing skipped, empty value empties, early exit only "
+             "when empty, the accumulated set is what is yielded"),
+        Rule("FORALL-PER-VALUE", forall.rule_forall_per_value, 2,
+             "the condition is evaluated inside the loop over universal values under sources extended with the value; "
+             "false condition rows are skipped before accumulation"),
+    ],
+    explanation="Universal quantification is implemented as a running intersection; that the accumulated set can only "
+                "shrink, is seeded once and is emptied by a value with no satisfying binding is a typestate property of "
+                "one loop, decided by abstract interpretation on a finite provenance lattice. Not decided: which "
+                "variables count as 'the other variables' and conditions that do not mention the universal variable "
+                "(runtime variable sets).",
+    assumptions=["the universal expression has a non-empty domain (as the property states)"],
+    design_ref="DESIGN.md §2 C10",
+))
+
+
+def _attach_sensitivity():
+    from ..props import SPECS
+    from .. import variants
+    for pid, fn in variants.REGISTRY.items():
+        if pid in SPECS:
+            SPECS[pid].sensitivity = fn
+
+
+_attach_sensitivity()
